@@ -162,8 +162,8 @@ where
     F: FnOnce(Arc<RwLock<varlink::Connection>>) -> Vec<Sx>,
 {
     let (a, b) = UnixStream::pair().expect("socketpair");
-    let _ = a.set_read_timeout(Some(std::time::Duration::from_secs(10)));
-    let _ = b.set_read_timeout(Some(std::time::Duration::from_secs(10)));
+    let _ = a.set_read_timeout(Some(std::time::Duration::from_secs(3)));
+    let _ = b.set_read_timeout(Some(std::time::Duration::from_secs(3)));
     let sent = Arc::new(Mutex::new(Vec::new()));
     let recv = Arc::new(Mutex::new(Vec::new()));
     let srv = std::thread::spawn(move || {
@@ -259,6 +259,75 @@ fn raw_step(conn: &Arc<RwLock<varlink::Connection>>, bytes: &[u8]) -> Sx {
     }
 }
 
+fn client_conn(a: &UnixStream, sent: &Arc<Mutex<Vec<u8>>>, recv: &Arc<Mutex<Vec<u8>>>) -> Arc<RwLock<varlink::Connection>> {
+    let mut conn = varlink::Connection::default();
+    let rd: Box<dyn Read + Send + Sync> = Box::new(TeeR(a.try_clone().expect("clone"), recv.clone()));
+    conn.reader = Some(BufReader::new(rd));
+    conn.writer = Some(Box::new(TeeW(a.try_clone().expect("clone"), sent.clone())));
+    Arc::new(RwLock::new(conn))
+}
+
+/// `(sendclose IFACE K1 K2)`: a first client sends the request of call case K1 (a stream it never reads) and closes its
+/// connection BEFORE the server looks at it; then ONE server thread serves that dead connection and after it a second
+/// connection on which a second client performs call case K2.
+fn sendclose(h: &Handlers, i: usize, k1: i64, k2: i64) -> Sx {
+    set_case(-1);
+    let f = match h.session.get(i) {
+        Some(f) => *f,
+        None => return sx::atom("no-such-interface"),
+    };
+    let (sent1, recv1) = (Arc::new(Mutex::new(Vec::new())), Arc::new(Mutex::new(Vec::new())));
+    let (a1, b1) = UnixStream::pair().expect("socketpair");
+    let _ = a1.set_read_timeout(Some(std::time::Duration::from_secs(3)));
+    set_case_keep(k1);
+    let outs1 = f(k1, client_conn(&a1, &sent1, &recv1));
+    let _ = a1.shutdown(std::net::Shutdown::Both);
+    drop(a1);
+    let (a2, b2) = UnixStream::pair().expect("socketpair");
+    let _ = a2.set_read_timeout(Some(std::time::Duration::from_secs(3)));
+    let _ = b2.set_read_timeout(Some(std::time::Duration::from_secs(3)));
+    let service = (h.service)();
+    let (tx, rx) = std::sync::mpsc::channel::<bool>();
+    let srv = std::thread::spawn(move || {
+        let mut rd = BufReader::new(b1.try_clone().expect("clone"));
+        let mut wr = b1;
+        let r1 = service.handle(&mut rd, &mut wr, None).is_ok();
+        drop(rd);
+        drop(wr);
+        let _ = tx.send(r1);
+        let mut rd = BufReader::new(b2.try_clone().expect("clone"));
+        let mut wr = b2;
+        let r2 = service.handle(&mut rd, &mut wr, None).is_ok();
+        let _ = wr.shutdown(std::net::Shutdown::Both);
+        (r1, r2)
+    });
+    let r1 = rx.recv_timeout(std::time::Duration::from_secs(5)).unwrap_or(false);
+    let (sent2, recv2) = (Arc::new(Mutex::new(Vec::new())), Arc::new(Mutex::new(Vec::new())));
+    set_case_keep(k2);
+    let outs2 = f(k2, client_conn(&a2, &sent2, &recv2));
+    let _ = a2.shutdown(std::net::Shutdown::Write);
+    let (_, r2) = srv.join().unwrap_or((false, false));
+    let mut left = Vec::new();
+    let mut a2 = a2;
+    let _ = a2.set_read_timeout(Some(std::time::Duration::from_millis(200)));
+    let _ = a2.read_to_end(&mut left);
+    let mut wire = recv2.lock().unwrap().clone();
+    wire.extend_from_slice(&left);
+    let seen = take_seen();
+    set_case(-1);
+    sx::tagged(
+        "sendclose",
+        vec![
+            sx::tagged("first", outs1),
+            sx::tagged("srv1", vec![sx::atom(if r1 { "ok" } else { "err" })]),
+            sx::tagged("second", outs2),
+            sx::tagged("seen", seen),
+            sx::tagged("wire", frames(&wire)),
+            sx::tagged("srv2", vec![sx::atom(if r2 { "ok" } else { "err" })]),
+        ],
+    )
+}
+
 /// `(session (g IFACE K oneway?) | (r b<bytes>) …)`: the steps one after the other over ONE connection
 fn session(h: &Handlers, steps: &[Sx]) -> Sx {
     set_case(-1);
@@ -331,6 +400,10 @@ fn one(h: &Handlers, cmd: &Sx) -> Sx {
             r
         }
         "session" => session(h, &l[1..]),
+        "sendclose" => {
+            let n = |k: usize| -> i64 { l.get(k).and_then(|x| x.as_atom()).and_then(|a| a.parse().ok()).unwrap_or(-1) };
+            sendclose(h, n(1).max(0) as usize, n(2), n(3))
+        }
         "desc" => {
             // the description constant the generator emitted, compared with the definition text byte by byte
             let expected = l.get(1).and_then(|x| x.as_str()).unwrap_or_default();
